@@ -538,6 +538,7 @@ def _config_fields(ctx):
 
 def run(ctx):
     from . import C03
+    C03.r7(ctx, ops=("hold", "release"), R="C12-R12")   # a release frees both directions: a connect in the direction left on Hold neither pairs nor is refused
     from . import C04
     C04.r2(ctx)   # a bounced host's listeners go with its old runtime: tasks that survive a bounce keep the port and strand queued connectors
     r11(ctx)
